@@ -88,6 +88,9 @@ Ins(t)   == S.tx[t].ins
 Refs(t)  == S.tx[t].refs
 Outs(t)  == S.tx[t].outs
 Kind(t)  == S.tx[t].kind
+Lo(t)    == S.tx[t].lo                  \* the transaction is valid only while Lo <= height of the tip <= Hi:
+Hi(t)    == S.tx[t].hi                  \* v2 from AllowHeight - 1 on, v1 up to RequireHeight - 2 and only in the
+                                        \* signature-replay epoch (before / after AllowHeight) it was signed for
 W(t)     == S.tx[t].w                   \* weight (Leg M: small integers; traces: the real encoded size)
 Need(t)  == Ins(t) \cup Refs(t)           \* the leaves whose proofs a v2 instance carries
 
@@ -136,12 +139,13 @@ SeqOK(U, s) == SeqOKFrom(U, St0, s, 1)
 
 \* the reported pool as instances: v1 then v2; the flags of a pooled v2 transaction are forced by
 \* validity (an input is ephemeral exactly when the tip's ledger does not hold it)
+KindNow(t)    == Lo(t) <= H(tip) /\ H(tip) <= Hi(t)
 EphAtTip(t)   == Ins(t) \ utxo
 InstAtTip(t)  == [t |-> t, eph |-> IF Kind(t) = "v2" THEN EphAtTip(t) ELSE {}]
 RECURSIVE IdsOKFrom(_, _, _)
 IdsOKFrom(st, ids, i) ==
     IF i > Len(ids) THEN TRUE
-    ELSE IF InstOK(utxo, st, InstAtTip(ids[i])) THEN IdsOKFrom(StepSt(st, ids[i]), ids, i + 1) ELSE FALSE
+    ELSE IF KindNow(ids[i]) /\ InstOK(utxo, st, InstAtTip(ids[i])) THEN IdsOKFrom(StepSt(st, ids[i]), ids, i + 1) ELSE FALSE
 PoolOK(p1, p2) == IdsOKFrom(St0, p1 \o p2, 1)
 RECURSIVE IdsState(_, _, _)
 IdsState(st, ids, i) == IF i > Len(ids) THEN st ELSE IdsState(StepSt(st, ids[i]), ids, i + 1)
@@ -227,7 +231,7 @@ RECURSIVE AddLoop(_, _, _, _)
 AddLoop(st, s, i, added) ==
     IF i > Len(s) THEN [conflict |-> FALSE, added |-> added]
     ELSE IF s[i].t \in PoolIds \/ s[i].t \in SeqSet(added) THEN AddLoop(st, s, i + 1, added)
-    ELSE IF InstOK(utxo, st, s[i]) THEN AddLoop(StepSt(st, s[i].t), s, i + 1, Append(added, s[i].t))
+    ELSE IF KindNow(s[i].t) /\ InstOK(utxo, st, s[i]) THEN AddLoop(StepSt(st, s[i].t), s, i + 1, Append(added, s[i].t))
     ELSE [conflict |-> TRUE, added |-> added]
 
 \* all results the specification allows for a submission: [r, added, restale]
@@ -235,7 +239,7 @@ AddResults(k, b, s) ==
     LET errR == [r |-> "err", added |-> <<>>, restale |-> FALSE, keep |-> {}]
         unknownBasis == k = "v2" /\ (b = 0 \/ b \notin sub)
         anyBad == \E i \in 1..Len(s) : s[i].bad
-        kindsOK == (\A i \in 1..Len(s) : Kind(s[i].t) = k) /\ (k = "v1" => S.v1ok)     \* v1 is refused once v2 is required
+        kindsOK == \A i \in 1..Len(s) : Kind(s[i].t) = k
         rb == IF k = "v2" /\ ~unknownBasis THEN RebaseWalk(Strip(s), b, tip) ELSE [err |-> FALSE, set |-> Strip(s)]
     IN
     IF unknownBasis \/ anyBad \/ ~kindsOK THEN {errR}
@@ -243,7 +247,7 @@ AddResults(k, b, s) ==
     ELSE LET s2 == rb.set
              mayRebaseErr == IF k = "v2" /\ RebaseMayFail(Strip(s), b, tip) THEN {errR} ELSE {}
          IN
-         IF ~SeqOK(utxo, s2)                                          \* not a valid set at the tip on its own
+         IF ~(SeqOK(utxo, s2) /\ \A i \in 1..Len(s2) : KindNow(s2[i].t))   \* not a valid set at the tip on its own (incl. the hardfork regime)
            THEN {errR} \cup (IF Len(s2) > 0 /\ \A i \in 1..Len(s2) : s2[i].t \in PoolIds           \* (all pooled, but e.g. a child without its
                              THEN {[r |-> "known", added |-> <<>>, restale |-> FALSE, keep |-> {}]}  \* parent: the documented contract says invalid,
                              ELSE {})                                                              \* the property says known: both are accepted)
@@ -281,7 +285,9 @@ Closure(K, U) ==
 DevDropped(tol, t, U) == tol /\ Kind(t) = "v2" /\ \E i \in Ins(t) : i \notin U
 
 KeepAfterApply(tol, K, b, U2) ==
-    Closure({t \in K : t \notin BodySet(b) /\ Need(t) \cap Sp(b) = {} /\ ~DevDropped(tol, t, U2)}, U2)
+    \* (H(b) <= Hi(t): the chain outgrew the regime the transaction is valid in -- v1 at the require height,
+    \* v1 signatures of the epoch before the allow height; heights never shrink across a completed reorg)
+    Closure({t \in K : t \notin BodySet(b) /\ Need(t) \cap Sp(b) = {} /\ H(b) <= Hi(t) /\ ~DevDropped(tol, t, U2)}, U2)
 KeepAfterRevert(tol, K, b, U2) ==
     Closure({t \in K : Need(t) \cap Cr(b) = {} /\ ~DevDropped(tol, t, U2)}, U2)
 
@@ -300,7 +306,7 @@ RECURSIVE Filter(_, _, _, _)
 Filter(st, ids, i, out) ==
     IF i > Len(ids) THEN out
     ELSE LET x == [t |-> ids[i], eph |-> IF Kind(ids[i]) = "v2" THEN EphAtTip(ids[i]) ELSE {}] IN
-         IF InstOK(utxo, st, x) THEN Filter(StepSt(st, ids[i]), ids, i + 1, Append(out, ids[i]))
+         IF KindNow(ids[i]) /\ InstOK(utxo, st, x) THEN Filter(StepSt(st, ids[i]), ids, i + 1, Append(out, ids[i]))
          ELSE Filter(st, ids, i + 1, out)
 CanonPool ==
     LET all == Filter(St0, pool1 \o pool2, 1, <<>>)
@@ -587,7 +593,7 @@ RebaseErrors == RebaseErrorsP(TRUE)
 RebaseErrorsStrict == RebaseErrorsP(FALSE)
 NoPanic == obs.nopanic
 ParentsFirst ==
-    [][act'.op = "TxSet" /\ reply'.r = "ok"
+    [][act'.op = "TxSet" /\ reply'.r = "ok" /\ Fresh                             \* (the spec's pool is the reported one)
          /\ ~(act'.basis # tip /\ act'.x.t \in AppliedBodies(act'.basis, tip)) =>   \* (confirmed meanwhile: nothing to broadcast)
          LET ids == reply'.ids t == act'.x.t IN
          /\ NoDup(ids)
@@ -595,6 +601,19 @@ ParentsFirst ==
          /\ ids[Len(ids)] = t
          /\ ParentsFirstOK(ids)]_vars
 BasisIsTip == [][act'.op = "TxSet" /\ reply'.r = "ok" => reply'.k = tip]_vars
+\* whatever the pool looks like after its (lazy) revalidation: the pooled ancestors that MUST still be
+\* there -- accepted, not confirmed, no input spent or reverted -- are part of the set.  Judged even when
+\* the call comes right after a block, before anybody looked at the pool (seed C13-f: a block confirmed
+\* the parent only and the child was dropped, V2TransactionSet(grandchild) returned the grandchild alone)
+MustCreator(i) == {p \in mustKeep : Kind(p) = "v2" /\ i \in Outs(p)}
+RECURSIVE MustAnc(_)
+MustAnc(A) ==
+    LET more == UNION {MustCreator(i) : i \in UNION {Ins(t) : t \in A}} IN
+    IF more \subseteq A THEN A ELSE MustAnc(A \cup more)
+TxSetKeepsAncestors ==
+    [][act'.op = "TxSet" /\ reply'.r = "ok"
+         /\ ~(act'.basis # tip /\ act'.x.t \in AppliedBodies(act'.basis, tip)) =>
+         (MustAnc({act'.x.t}) \ {act'.x.t}) \subseteq SeqSet(reply'.ids)]_vars
 TxSetErrorsP(tol) ==
     [][act'.op = "TxSet" =>
          LET x == act'.x b == act'.basis
